@@ -145,7 +145,7 @@ def coq_build(targets, timeout=2400):
         return rc == 0, out + err, dt
 
 
-def coq_prop(prop_file, timeout=1800):
+def coq_prop(prop_file, timeout=900):
     """Compile one Properties/<id>.v freshly (so that Print Assumptions output is captured).
     Returns dict(ok, log, assumptions{theorem: text}, theorems[list])."""
     vo = f"Properties/{prop_file}.vo"
